@@ -1,0 +1,23 @@
+//go:build verif
+
+// Verification hook (add-only, compiled only with -tags verif): synchronous delivery of a Content Store management
+// command Interest to the real ContentStoreModule, for the PIT/CS correspondence harness. No behaviour change.
+package mgmt
+
+import (
+	"github.com/named-data/ndnd/fw/face"
+	spec "github.com/named-data/ndnd/std/ndn/spec_2022"
+)
+
+// VerifPitcsMgmt wraps a management thread whose Run loop is not started.
+type VerifPitcsMgmt struct{ m *Thread }
+
+// VerifPitcsNewMgmt creates a management thread with all modules registered.
+func VerifPitcsNewMgmt() *VerifPitcsMgmt { return &VerifPitcsMgmt{m: MakeMgmtThread()} }
+
+// CsCommand hands the Interest to ContentStoreModule.handleIncomingInterest, exactly as Thread.Run does after its own
+// dispatch on the module name. The response is sent into a fresh internal transport (buffered, nobody reads it).
+func (v *VerifPitcsMgmt) CsCommand(interest *spec.Interest, pitToken []byte, inFace uint64) {
+	v.m.transport = face.MakeInternalTransport()
+	v.m.modules["cs"].handleIncomingInterest(interest, pitToken, inFace)
+}
